@@ -184,6 +184,22 @@ func inverseSubst(t *rapid.T, d string, k int) string {
 	}
 	for ; k > 0; k-- {
 		pos := rapid.IntRange(0, len(rs)-1).Draw(t, "pos")
+		if rapid.Bool().Draw(t, "multi-rune-site") {
+			// prefer a place where two or more runes are the decomposition of one (base + mark,
+			// space + mark, jamo sequences, ligatures): such places are rare in a sentence
+			var sites []int
+			for p := 0; p < len(rs); p++ {
+				for l := min(invMaxLen, len(rs)-p); l >= 2; l-- {
+					if len(invTable[string(rs[p:p+l])]) > 0 {
+						sites = append(sites, p)
+						break
+					}
+				}
+			}
+			if len(sites) > 0 {
+				pos = sites[rapid.IntRange(0, len(sites)-1).Draw(t, "site")]
+			}
+		}
 		// longest match first
 		done := false
 		for l := min(invMaxLen, len(rs)-pos); l >= 1 && !done; l-- {
